@@ -252,7 +252,7 @@ class Attribute(_BaseAttribute):
         out = np.full((container_size, self.elemsize), self.default_value, dtype= self.type.dtype)
         for i,x in self._data.items():
             out[i,:] = x
-        return np.squeeze(out)
+        return np.squeeze(out, axis=1) if self.elemsize == 1 else out # one row per element, whatever the number of elements
 
     def clear(self):
         """
@@ -334,7 +334,7 @@ class ArrayAttribute(_BaseAttribute):
             yield self._data[i]
 
     def as_array(self, *args):
-        return np.squeeze(self._data)
+        return np.squeeze(self._data, axis=1) if self.elemsize == 1 else self._data # one row per element, whatever the number of elements
     
     def clear(self):
         """
